@@ -86,3 +86,16 @@ Theorem c14_root_length_is_source :
     forall a b : Z, gtrue (upd (upd env0 "length0" a) "length" b) c = Some (negb (Z.eqb a b)).
 Proof. exact Decisions.root_length_decision. Qed.
 Print Assumptions c14_root_length_is_source.
+
+(* record writes in the source: offset taken after the before-write hook, header+key, value, then size and location *)
+Theorem c14_item_write_order_is_source :
+  let l := call_list "itemLoc.write" in
+  before "c.store.callbacks.BeforeItemWrite" "atomic.LoadInt64" l = true /\
+  before "atomic.LoadInt64" "c.store.file.WriteAt" l = true /\
+  before "c.store.file.WriteAt" "c.store.ItemValWrite" l = true /\
+  before "c.store.ItemValWrite" "atomic.StoreInt64" l = true /\
+  before "atomic.StoreInt64" "iloc.setLoc" l = true /\
+  before "iItem.NumValBytes" "c.store.file.WriteAt" l = true /\
+  before "c.store.callbacks.BeforeItemWrite" "iItem.NumValBytes" l = true.
+Proof. exact Decisions.item_write_order. Qed.
+Print Assumptions c14_item_write_order_is_source.
